@@ -300,6 +300,7 @@ def _bfs_table(acc, arg):
         sim = TableSim(factory, domains, unique_attrs, n_obj)
         for op in history:
             sim.apply(op)
+            sim.check()     # look-ups happen between the operations too (an answer remembered by the table would show later)
         return sim
 
     start = build([])
